@@ -8,6 +8,7 @@ mod fsm;
 mod link;
 mod prep;
 mod scan;
+mod writer;
 
 fn main() {
     let args: Vec<String> = std::env::args().collect();
@@ -39,6 +40,7 @@ fn main() {
             "prep" => prep::run_case(line),
             "scan" => scan::run_case(line),
             "rdhrt" => scan::run_rdhrt(line),
+            "writer" => writer::run_case(line),
             "dispatch" => link::run_dispatch_case(line),
             _ => {
                 eprintln!("unknown stream {stream}");
